@@ -77,6 +77,9 @@ class Emitter:
         self.unit_names = set()
         self.news = {}
         self.const_needed = set()
+        self.const_inits = {}  # C name -> int value of a const integral global (emitted as enum constant)
+        self._const_cache = {}
+        self.cur_tu = None
         self.field_inits = {}
         self.callflag = False
 
@@ -358,6 +361,12 @@ class Emitter:
             except Unsupported:
                 pass
             return "VFC_" + ident(name)
+        cv = self.const_global_value(name, rd)
+        if cv is not None:
+            # namespace-scope `constexpr`/`const` integer with a literal initialiser (e.g. `constexpr int MAX = 80;`):
+            # emitted as a C enumeration constant carrying the value read from the real declaration
+            self.const_inits[ident(name)] = cv
+            return ident(name)
         gmap = self.cfg.get("globals", {})
         cn = gmap.get(name, ident(name))
         ct = self.ctype((rd.get("type") or {}).get("desugaredQualType") or rd["type"]["qualType"]) \
@@ -366,6 +375,37 @@ class Emitter:
             raise Unsupported("global %s has two types" % cn)
         self.globals[cn] = ct
         return cn
+
+    def const_global_value(self, name, rd):
+        """value of a const-qualified integral global whose initialiser is an integer/bool literal, else None"""
+        import astq
+        tq = (rd.get("type") or {}).get("desugaredQualType") or (rd.get("type") or {}).get("qualType") or ""
+        if not tq.startswith("const ") or "*" in tq or "&" in tq or not getattr(self, "cur_tu", None):
+            return None
+        if tq[6:] not in ("int", "unsigned int", "long", "unsigned long", "short", "unsigned short", "char", "bool"):
+            return None
+        if name in self.cfg.get("globals", {}) or name in self.cfg.get("global_types", {}):
+            return None
+        key = (self.cur_tu, name)
+        if key not in self._const_cache:
+            val = None
+            try:
+                for o in astq.query(self.cur_tu, name):
+                    if o.get("kind") == "VarDecl" and o.get("name") == name and o.get("init"):
+                        e = [x for x in o.get("inner", []) if isinstance(x, dict) and x.get("kind") != "FullComment"]
+                        e = e[-1] if e else None
+                        while e and e.get("kind") in ("ImplicitCastExpr", "ConstantExpr", "ParenExpr", "ExprWithCleanups") \
+                                and "value" not in e and e.get("inner"):
+                            e = e["inner"][0]
+                        if e and e.get("kind") in ("IntegerLiteral", "ConstantExpr", "CXXBoolLiteralExpr") and "value" in e:
+                            v = e["value"]
+                            val = int(v) if not isinstance(v, bool) else int(v)
+            except (astq.ClangError, ValueError, TypeError):
+                val = None
+            if val is not None and not (-2**31 <= val < 2**31):
+                val = None
+            self._const_cache[key] = val
+        return self._const_cache[key]
 
     def e_MemberExpr(self, n):
         base = n["inner"][0]
